@@ -61,6 +61,10 @@ pub struct PoolProg {
     /// fixed VM only: reads the internal buffer beyond the 16 bytes its offsets (0, 8) need; the
     /// outcome (an error on this tree) is whatever a fresh VM gives - never predicted by the model
     pub tail_probe: bool,
+    /// interpreter only: folds stack slots it never wrote into its result. No value is predicted
+    /// (the properties do not say what an unwritten slot holds); every execution of the program
+    /// in a history, and a VM built from scratch on another thread, must agree on it
+    pub stack_read: bool,
 }
 
 const HELPER_ID: u32 = 7;
@@ -117,7 +121,7 @@ pub fn mk_pool(rng: &mut Rng, pkt_addr: u64) -> Vec<PoolProg> {
             }
         }
         v.push(Insn::new(EXIT, 0, 0, 0, 0));
-        pool.push(PoolProg { bytes: encode_prog(&v), id, needs_helper, frame_probe, default_ok, probe, prefix_of: None, tail_probe: false });
+        pool.push(PoolProg { bytes: encode_prog(&v), id, needs_helper, frame_probe, default_ok, probe, prefix_of: None, tail_probe: false, stack_read: false });
     }
     // a pair of valid programs that share their start address: #12 = lddw; exit; exit and #13 = its
     // first three slots (a different program as far as loading and compiling are concerned)
@@ -126,8 +130,8 @@ pub fn mk_pool(rng: &mut Rng, pkt_addr: u64) -> Vec<PoolProg> {
         let v = vec![Insn::new(LDDW, 0, 0, 0, id as u32 as i32), Insn::new(0, 0, 0, 0, (id >> 32) as u32 as i32), Insn::new(EXIT, 0, 0, 0, 0), Insn::new(EXIT, 0, 0, 0, 0)];
         let bytes = encode_prog(&v);
         let long_idx = pool.len();
-        pool.push(PoolProg { bytes: bytes.clone(), id, needs_helper: false, frame_probe: false, default_ok: true, probe: None, prefix_of: None, tail_probe: false });
-        pool.push(PoolProg { bytes: bytes[..24].to_vec(), id, needs_helper: false, frame_probe: false, default_ok: true, probe: None, prefix_of: Some((long_idx, 24)), tail_probe: false });
+        pool.push(PoolProg { bytes: bytes.clone(), id, needs_helper: false, frame_probe: false, default_ok: true, probe: None, prefix_of: None, tail_probe: false, stack_read: false });
+        pool.push(PoolProg { bytes: bytes[..24].to_vec(), id, needs_helper: false, frame_probe: false, default_ok: true, probe: None, prefix_of: Some((long_idx, 24)), tail_probe: false, stack_read: false });
     }
     // fixed VM: programs written for offsets (0, 8) that read the internal buffer at +0x10 / +0x18,
     // i.e. inside the buffer an EARLIER load with larger offsets needed
@@ -136,7 +140,31 @@ pub fn mk_pool(rng: &mut Rng, pkt_addr: u64) -> Vec<PoolProg> {
     for t in [0x10i16, 0x18] {
         let id = next_id(rng, 0);
         let v = vec![Insn::new(LDXDW, 2, 1, t, 0), Insn::new(LDDW, 0, 0, 0, id as u32 as i32), Insn::new(0, 0, 0, 0, (id >> 32) as u32 as i32), Insn::new(JA, 0, 0, 1, 0), Insn::new(CALL, 0, 0, 0, 0x7777), Insn::new(EXIT, 0, 0, 0, 0)];
-        pool.push(PoolProg { bytes: encode_prog(&v), id, needs_helper: false, frame_probe: false, default_ok: true, probe: Some((0, 8)), prefix_of: None, tail_probe: true });
+        pool.push(PoolProg { bytes: encode_prog(&v), id, needs_helper: false, frame_probe: false, default_ok: true, probe: Some((0, 8)), prefix_of: None, tail_probe: true, stack_read: false });
+    }
+    // stack writers (fill all 64 slots with an id-dependent pattern) and stack readers (fold four
+    // slots they never wrote): what one execution leaves in "its" stack must not reach another
+    for k in 0..4 {
+        let id = next_id(rng, 0);
+        let mut v: Vec<Insn> = Vec::new();
+        let reader = k >= 2;
+        v.push(Insn::new(LDDW, 0, 0, 0, id as u32 as i32));
+        v.push(Insn::new(0, 0, 0, 0, (id >> 32) as u32 as i32));
+        if reader {
+            for slot in [1i16, 2, 32, 64] {
+                v.push(Insn::new(LDXDW, 2, 10, -8 * slot, 0));
+                v.push(Insn::new(XOR64_REG, 0, 2, 0, 0));
+            }
+            // never compiled (compiled engines use the native stack, whose unwritten bytes are anything)
+            v.push(Insn::new(JA, 0, 0, 1, 0));
+            v.push(Insn::new(CALL, 0, 0, 0, 0x7777));
+        } else {
+            for slot in 1..=64i16 {
+                v.push(Insn::new(STDW, 10, 0, -8 * slot, (id as u32 as i32) | 1));
+            }
+        }
+        v.push(Insn::new(EXIT, 0, 0, 0, 0));
+        pool.push(PoolProg { bytes: encode_prog(&v), id, needs_helper: false, frame_probe: false, default_ok: true, probe: None, prefix_of: None, tail_probe: reader, stack_read: reader });
     }
     // one byte string no verifier-independent reading can run: truncated (7 bytes) - only loadable
     // under accept-all; never executed by the generator after such a load
@@ -232,6 +260,7 @@ pub fn exec_history(kind: &Kind, ops: &[Op], pool: &[PoolProg], pk: (*mut u8, us
         let offs_of = |pi: usize| pool[pi].probe.unwrap_or((0, 8));
         // what a fresh VM needs to be in the same state (only what the API calls themselves said)
         let (mut cur, mut cur_helper, mut cur_calc, mut cur_ver): (Option<usize>, Option<usize>, bool, Ver) = (None, None, false, Ver::Default);
+        let mut nexec = 0u32;
         let ver_fn = |v: Ver| -> rbpf::Verifier {
             match v {
                 Ver::Default => v_default_like,
@@ -316,7 +345,13 @@ pub fn exec_history(kind: &Kind, ops: &[Op], pool: &[PoolProg], pk: (*mut u8, us
                         // the buffers passed in": a VM built from scratch into the same state must agree
                         if let Some(ci) = cur {
                             let offs = offs_of(ci);
-                            let fresh = (|| -> Result<u64, String> {
+                            // built and run on ANOTHER thread: per-thread state of the crate (if
+                            // it ever has any) is fresh there as well
+                            struct SendPtrs((*mut u8, usize), (*mut u8, usize));
+                            unsafe impl Send for SendPtrs {}
+                            let ptrs = SendPtrs(pk, mb);
+                            let run_fresh = move || -> Result<u64, String> {
+                                let ptrs = ptrs;
                                 let mut f = Vm::new(*kind, None, offs)?;
                                 f.set_verifier(ver_fn(cur_ver))?;
                                 f.set_program(prog_slice(pool, ci), offs)?;
@@ -326,8 +361,11 @@ pub fn exec_history(kind: &Kind, ops: &[Op], pool: &[PoolProg], pk: (*mut u8, us
                                 if cur_calc {
                                     f.set_calc(calc_by_prog, Box::new(()))?;
                                 }
-                                f.exec(pk, mb)
-                            })();
+                                f.exec(ptrs.0, ptrs.1)
+                            };
+                            nexec += 1;
+                            let threaded = !cfg!(miri) && (pool[ci].stack_read || nexec % 4 == 0);
+                            let fresh = if threaded { std::thread::scope(|sc| sc.spawn(run_fresh).join()).unwrap_or_else(|_| Err("fresh VM panicked".into())) } else { run_fresh() };
                             let same = match (&here, &fresh) {
                                 (Ok(a), Ok(b)) => a == b,
                                 (Err(_), Err(_)) => true,
@@ -447,6 +485,7 @@ pub fn run(a: &Args, rep: &mut Report) {
         let mut m = Model { exists: false, prog: None, ver: Ver::Default, helper: None, calc: false, jit: None, cl: None, jit_stale: false, cl_stale: false, jit_same: false, cl_same: false, offs: (0, 8) };
         let mut pos = 0usize;
         let mut last_exec: Option<(u64, usize)> = None; // (value, model epoch) for history independence
+        let mut first_seen: std::collections::HashMap<usize, u64> = std::collections::HashMap::new();
         let mut epoch = 0usize;
         for (oi, op) in ops.iter().enumerate() {
             if pos >= b.len() {
@@ -591,6 +630,26 @@ pub fn run(a: &Args, rep: &mut Report) {
                 Op::Exec => {
                     let want = m.prog.and_then(|i| value_of(&pool[i], m.helper, m.offs, *kind, m.calc));
                     let tail = m.prog.is_some_and(|i| pool[i].tail_probe);
+                    if let Some(i) = m.prog.filter(|i| pool[*i].stack_read) {
+                        // no predicted value: all executions of this program in the history must agree
+                        match &obs {
+                            Obs::Val(v) => {
+                                let first = *first_seen.entry(i).or_insert(*v);
+                                if first != *v {
+                                    fail(rep, "unwritten-stack-differs-between-executions", format!("a program that folds stack slots it never wrote returned {first:#x} earlier in this history and {v:#x} now: an earlier execution's stack contents reached it"));
+                                    stop = true;
+                                }
+                            }
+                            o => {
+                                fail(rep, "verdict", format!("execute returned {o:?} for a program that only reads its own stack"));
+                                stop = true;
+                            }
+                        }
+                        if stop {
+                            break;
+                        }
+                        continue;
+                    }
                     match (&obs, &want) {
                         (Obs::Err, None) => {}
                         // decided by the comparison with a fresh VM made in the child
